@@ -12,6 +12,10 @@ CLAIMS = {
    "Exhaustive static obligation per site: every unsafe.Pointer reinterpretation in the package (48 on the pinned tree, found on the SSA form by type, not by text) must be narrowing (sizeof view <= sizeof source) and a field-by-field layout prefix (offset, type, jsonld term, name; Items/OrderedItems is the one allowed renaming) on all 14 gc architectures; any other use of package unsafe fails. This is the property's own static formulation ('a static obligation per site'), so the check decides the property for all sites and layouts; it is reported as level 'other' in evidence while a known widening finding leaves an obligation undischarged.",
    "Trusted: go/types layout model types.SizesFor(gc, arch) agreeing with the compiler; go/ssa builder; the reflect.ConvertibleTo fallback converts only between identical underlying struct types (not re-verified).",
    "layout-prefix check over all unsafe.Pointer conversion sites (go/ssa + go/types.Sizes)", "3/C08"),
+ "C15": ("other",
+   "Decides the table-agreement clauses: the eight collection names of the statement are CollectionPath constants; the table Split consults and the union of the two validity tables contain all eight; Split/ValidCollectionIRI route through those tables (who-reads / who-calls on the SSA call graph); by abstract interpretation with the path fixed to each name, ofActor/ofObject/AddTo touch exactly the struct field whose jsonld term equals the name. A necessary condition of the join/split and owner laws for each name; the inverse law on arbitrary owner IRI strings is NOT decided.",
+   "Trusted: go/types constant evaluation, go/ssa, the abstract interpreter. Declined: string-level inverse law (trailing slashes, percent-escapes, path/filepath host dependence); survival of an explicitly set actor collection through Of().",
+   "constant-table agreement + abstract interpretation (SCCP) of the name->field switches", "3/C15"),
 }
 
 NOT_YET = "check not yet built in this round (planned, see DESIGN.md section 3); not claimed until it runs clean"
